@@ -1,0 +1,12 @@
+//! Verification hooks (only compiled with `--cfg parol_verif`).
+//!
+//! Thin public wrappers around crate-private items so that an external harness can observe
+//! them. Nothing in here changes behaviour.
+
+use crate::analysis::FollowSet;
+use crate::analysis::k_decision::CacheEntry;
+
+/// The FOLLOW sets stored in a follow cache entry.
+pub fn follow_set_of(entry: &CacheEntry) -> FollowSet {
+    entry.follow_set.clone()
+}
